@@ -349,7 +349,7 @@ discard_value(struct attr_data *attr)
 		break;
 
 	case KDUMP_BITMAP:
-		internal_bmp_decref(attr_value(attr)->bitmap);
+		bmp_decref_locked(attr_value(attr)->bitmap);
 		break;
 
 	case KDUMP_BLOB:
